@@ -3,5 +3,5 @@ CONSTANTS
   MaxDev = 0
   NamesSet = {"utf8", "legacy"}
   CoreOnly = FALSE
-  Gaps = {"F9a", "F9b", "F9c", "F9d", "F9e"}
+  Gaps = {}
 CHECK_DEADLOCK FALSE
